@@ -90,6 +90,15 @@ func c12ValID(b []byte) int64 {
 
 func argI(op []interface{}, i int) int { return int(op[i].(float64)) }
 
+// GetRoot() of an empty trie is nil and stays nil (an empty non-nil root would make setMarker write the
+// marker under sha256(""), which is also the data key of an all-empty State)
+func c12CopyRoot(r []byte) []byte {
+	if len(r) == 0 {
+		return nil
+	}
+	return append([]byte{}, r...)
+}
+
 func c12Code(c int64) []byte { return []byte{0xC0, byte(c)} }
 func c12Src(c int64) []byte  { return []byte{0x50, byte(c), 0x01} }
 func c12RawKey(k int64) []byte { return []byte{'r', 'a', 'w', byte(k)} }
@@ -316,7 +325,7 @@ func (e *c12Env) exec(op []interface{}) {
 		if string(e.csdb.GetRoot()) != string(e.sdb.GetRoot()) {
 			panic("main root differs from the applied block state root")
 		}
-		e.roots = append(e.roots, append([]byte{}, e.sdb.GetRoot()...))
+		e.roots = append(e.roots, c12CopyRoot(e.sdb.GetRoot()))
 		e.bs = e.csdb.NewBlockState(e.csdb.GetRoot())
 		e.sdb = e.bs.StateDB
 		e.resetCaller()
@@ -363,7 +372,7 @@ func (e *c12Env) exec(op []interface{}) {
 		if err := e.sdb.Commit(); err != nil {
 			panic(err)
 		}
-		e.roots = append(e.roots, append([]byte{}, e.sdb.GetRoot()...))
+		e.roots = append(e.roots, c12CopyRoot(e.sdb.GetRoot()))
 	case "reopen":
 		if len(e.roots)%2 == 0 {
 			e.sdb = statedb.NewStateDB(e.store, e.sdb.GetRoot(), false)
@@ -531,11 +540,27 @@ func (e *c12Env) observe() c12Obs {
 func (e *c12Env) stepObs(op []interface{}) (o c12Obs) {
 	defer func() {
 		if x := recover(); x != nil {
+			if os.Getenv("VERIF_DEBUG") != "" {
+				println("verif-debug: op panicked:", fmtAny(x))
+			}
 			o = c12Obs{P: 1}
 		}
 	}()
 	e.exec(op)
 	return e.observe()
+}
+
+func fmtAny(x interface{}) string {
+	if e, ok := x.(error); ok {
+		return e.Error()
+	}
+	if s, ok := x.(string); ok {
+		return s
+	}
+	if _, ok := x.(c12OOC); ok {
+		return "out-of-contract call (not executed)"
+	}
+	return "panic value of another type"
 }
 
 func TestVerifC12Engine(t *testing.T) {
